@@ -107,6 +107,16 @@ func scenarioStart(c *hlib.RunCtx) *hlib.Violation {
 		os.WriteFile(filepath.Join(defaultDir, "mode"), []byte("local"), 0666)
 	}
 
+	// One run in six: the applications configure no directory, so the per-user
+	// default directory is the one that counts (its mode file, its token).
+	useDefault := t.Bool(1, 6)
+	if useDefault {
+		os.Remove(filepath.Join(defaultDir, "mode"))
+		tele = defaultDir
+		local = filepath.Join(tele, "local")
+		tokenPath = filepath.Join(local, "upload.token")
+		s.Probe("default-directory-is-operative")
+	}
 	mode := []string{"on", "local", "off"}[t.Draw(3)]
 	modeKind := t.Biased(3, 3, 4) // 0 written normally, 1 missing file (= local), 2 garbage (= whatever it parses to)
 	os.MkdirAll(tele, 0777)
@@ -340,6 +350,9 @@ func scenarioStart(c *hlib.RunCtx) *hlib.Violation {
 			s.Probe("inherited-upload-variable")
 		}
 		st := &starter{cfg: Config{ReportCrashes: t.Bool(1, 2), Upload: t.Bool(2, 3), TelemetryDir: tele, UploadURL: "http://telemetry.sim/upload"}, marker: marker, tainted: marker != ""}
+		if useDefault {
+			st.cfg.TelemetryDir = ""
+		}
 		if t.Bool(1, 5) {
 			// the documented way to try out a later upload: the token's age has nothing to do with it
 			st.cfg.UploadStartTime = start.Add(time.Duration(1+t.Draw(30)) * 24 * time.Hour)
@@ -431,7 +444,7 @@ func scenarioStart(c *hlib.RunCtx) *hlib.Violation {
 	if mode == "off-but-unreadable-once" {
 		// the off clauses still hold for every process but the excused one
 		for _, fc := range s.CallLog {
-			if fc.Mutating && fc.Err == nil && fc.Proc != excused && strings.HasPrefix(fc.Path, "tele/") {
+			if fc.Mutating && fc.Err == nil && fc.Proc != excused && strings.HasPrefix(fc.Path, filepath.Base(tele)+"/") {
 				fail("write-in-off", "mode is off (one other process could not read the mode file) but process %d performed %s on %s", fc.Proc.ID, fc.Op, fc.Path)
 				break
 			}
